@@ -395,6 +395,37 @@ static void netProbe(Rng &rng, CaseResult &r, uint64_t idx) {
   r.sig = std::string(kn[kind]) + ":" + (api == 0 ? "addNet" : "setNets") + ":" + fn[follow];
 }
 
+// placeDetailed legalizes first, reports that state to the callback, and validates the parameter set again before the
+// optimisation starts. A callback that writes a rejected value into the caller's parameter object at that point must see the
+// call refused with a catchable error, not the value used.
+static void midCallParamProbe(Rng &rng, CaseResult &r, uint64_t idx) {
+  static std::vector<BadParam> bad = badParams();
+  Circuit c0 = smallCircuit(rng);
+  ColoquinteParameters p((int)rng.range(1, 9));
+  int which = (int)(idx % bad.size());
+  if (r.needSample()) r.sample = vf::J::obj().kv("probe", "parameter object modified by the first callback of placeDetailed").kv("bad_field", bad[which].name).kraw("circuit", circuitJson(c0)).str();
+  if (r.dumpOnly) return;
+  Circuit c = c0;
+  int ncb = 0;
+  PlacementCallback cb = [&](PlacementStep) { if (++ncb == 1) bad[which].set(p); };
+  bool threw = false, legalizeFailed = false;
+  try {
+    c.placeDetailed(p, cb);
+  } catch (const std::exception &e) {
+    threw = true;
+    if (ncb == 0) legalizeFailed = true;
+  } catch (...) {
+    r.fail("C19:non-std-exception", bad[which].name);
+    threw = true;
+  }
+  if (legalizeFailed) { r.sig = "legalize-failed"; return; }
+  if (!threw) r.fail("C19:rejected-parameters-but-call-returned", std::string("placeDetailed returned normally although its first callback had set ") + bad[which].name + " in the parameter object it was given");
+  if (ncb > 1) r.fail("C19:placement-work-with-rejected-parameters", std::string("callbacks of the optimisation ran after the parameter object had been given ") + bad[which].name);
+  r.count("midcall_refused");
+  r.nontrivial = true;
+  r.sig = std::string("midcall:") + bad[which].name;
+}
+
 // A valid multi-net description (limits / cells / offsets / weights), corrupted in one randomly chosen way; every vector is
 // exactly sized so that ASan sees any read past its end during validation.
 static void netStructureProbe(Rng &rng, CaseResult &r) {
@@ -462,6 +493,7 @@ static void netStructureProbe(Rng &rng, CaseResult &r) {
 
 int main(int argc, char **argv) {
   std::vector<vf::Part> parts;
+  parts.push_back({"c19.params.midcall", [](uint64_t idx, Rng &rng, CaseResult &r) { midCallParamProbe(rng, r, idx); }, 60});
   parts.push_back({"c19.nets.structure", [](uint64_t, Rng &rng, CaseResult &r) { netStructureProbe(rng, r); }, 30});
   parts.push_back({"c19.effort.window", [](uint64_t idx, Rng &, CaseResult &r) { effortProbe((int)idx - 16, r); }, 30});
   parts.push_back({"c19.effort.random", [](uint64_t idx, Rng &rng, CaseResult &r) {
